@@ -15,13 +15,15 @@
 #include <set>
 #include <string>
 #include <deque>
+#include <functional>
 using namespace tbb::flow; using tbb::detail::d2::graph_task; using tbb::detail::d2::SUCCESSFULLY_ENQUEUED;
 static int DEPTH = 6;
 static void pump() { vtbb::interleave(); }                       // pending graph tasks may run now (explorer choice)
 static std::string S(const std::vector<int>& v) { std::string s; for (int x : v) { s += std::to_string(x); s += ','; } return s; }
 
 // ================================================================ seq: operation sequences on the four buffer kinds
-enum { OP_P, OP_G, OP_R, OP_L, OP_C, NOPS };
+enum { OP_P, OP_G, OP_R, OP_L, OP_C, OP_A, NOPS };   // OP_A: attach an accepting push successor (at most once per sequence)
+struct FwdRecv : receiver<int> { graph& g; std::function<void(int)> on; FwdRecv(graph& gr) : g(gr) {} graph_task* try_put_task(const int& v) override { on(v); return SUCCESSFULLY_ENQUEUED; } graph& graph_reference() const override { return g; } };
 static const int PRIO[] = {5, 1, 7, 3, 9, 2, 8, 4, 6, 0, 11, 10};        // values of successive puts for priority_queue_node (distinct)
 static const int TAGS[] = {2, 0, 1, 1, 4, 3, 0, 6, 5, 2, 7, 8};          // tags of successive puts for sequencer_node (duplicates and stale tags)
 struct Model { int kind; std::deque<int> q; std::multiset<int> ms; std::set<int> tags; int head = 0; bool holding = false; int held = 0; std::multiset<int> in, out;
@@ -29,7 +31,7 @@ struct Model { int kind; std::deque<int> q; std::multiset<int> ms; std::set<int>
 static long seq_count(int depth) { long n = 1; for (int i = 0; i < depth; i++) n *= NOPS; return n; }
 static void s_seq(long c) { int kind = (int)(c % 4); c /= 4; int ops[16]; for (int i = 0; i < DEPTH; i++) { ops[i] = (int)(c % NOPS); c /= NOPS; }
     // legality: release/consume only while holding, reserve only while not holding; prune illegal sequences (cheap: before creating the graph)
-    { bool h = false; int items = 0; for (int i = 0; i < DEPTH; i++) { int o = ops[i]; if ((o == OP_L || o == OP_C) && !h) return; if (o == OP_R && h) return; if (o == OP_R) h = true; if (o == OP_L || o == OP_C) h = false; (void)items; } }
+    { bool h = false; int items = 0, na = 0; for (int i = 0; i < DEPTH; i++) { int o = ops[i]; if (o == OP_A && ++na > 1) return; if ((o == OP_L || o == OP_C) && !h) return; if (o == OP_R && h) return; if (o == OP_R) h = true; if (o == OP_L || o == OP_C) h = false; (void)items; } }
     static const char* KN[] = {"buffer", "queue", "priority_queue", "sequencer"}; vtbb::init(2); Model m; m.kind = kind; int nput = 0; std::string trace;
     { graph g; buffer_node<int> bn(g); queue_node<int> qn(g); priority_queue_node<int> pn(g); sequencer_node<int> sn(g, [](const int& v) -> size_t { return (size_t)(v % 100); });
       auto put = [&](int v) { return kind == 0 ? bn.try_put(v) : kind == 1 ? qn.try_put(v) : kind == 2 ? pn.try_put(v) : sn.try_put(v); };
@@ -42,7 +44,9 @@ static void s_seq(long c) { int kind = (int)(c % 4); c /= 4; int ops[16]; for (i
           else if (kind == 3) { if (v % 100 != m.head || !m.tags.count(m.head)) vf_fail("sequencer_node %s returned the item with tag %d but the next tag in sequence is %d [%s]", what, v % 100, m.head, trace.c_str()); }
           else { if (!m.ms.count(v)) vf_fail("%s_node %s returned %d which is not in the buffer [%s]", KN[kind], what, v, trace.c_str()); if (kind == 2 && v != *m.ms.rbegin()) vf_fail("priority_queue_node %s returned %d but %d with higher priority is buffered [%s]", what, v, *m.ms.rbegin(), trace.c_str()); } };
       auto remove = [&](int v) { if (kind == 1) m.q.pop_front(); else if (kind == 3) { m.tags.erase(m.head); m.head++; } else m.ms.erase(m.ms.find(v)); m.out.insert(v); };
-      for (int i = 0; i < DEPTH; i++) { int o = ops[i]; trace += "PGRLC"[o];
+      FwdRecv recv(g); recv.on = [&](int v) { trace += 'f'; if (m.holding && v == m.held) vf_fail("%s_node forwarded item %d to a successor while it is reserved by another consumer (it can now be consumed twice) [%s]", KN[kind], v, trace.c_str()); expect_next(v, "forward to a successor"); remove(v); };
+      for (int i = 0; i < DEPTH; i++) { int o = ops[i]; trace += "PGRLCA"[o];
+          if (o == OP_A) { if (kind == 0) make_edge(bn, recv); else if (kind == 1) make_edge(qn, recv); else if (kind == 2) make_edge(pn, recv); else make_edge(sn, recv); pump(); continue; }
           if (o == OP_P) { int v = kind == 2 ? PRIO[nput % 12] : kind == 3 ? 100 * (nput + 1) + TAGS[nput % 12] : nput + 1; nput++; bool ok = put(v);
               if (kind == 3) { int tag = v % 100; bool should = tag >= m.head && !m.tags.count(tag); if (ok != should) vf_fail("sequencer_node try_put of tag %d returned %d (next tag to emit %d, tag %s buffered) [%s]", tag, ok, m.head, m.tags.count(tag) ? "already" : "not", trace.c_str()); if (ok) { m.tags.insert(tag); m.in.insert(v); } }
               else { if (!ok) vf_fail("%s_node rejected a put [%s]", KN[kind], trace.c_str()); m.in.insert(v); if (kind == 1) m.q.push_back(v); else m.ms.insert(v); } }
@@ -110,23 +114,27 @@ struct TestRecv : receiver<int> { graph& g; std::vector<int> got; int outstandin
     TestRecv(graph& gr, int t) : g(gr), threshold(t) {}
     graph_task* try_put_task(const int& v) override { if (!accept_all && vf_choose(2)) { rejected++; return nullptr; }
         if (std::find(got.begin(), got.end(), v) != got.end()) vf_fail("limiter_node forwarded message %d twice", v);
-        got.push_back(v); if (++outstanding > threshold) vf_fail("limiter_node(threshold %d) forwarded message %d while %d forwarded messages are not yet decremented", threshold, v, outstanding - 1); if (outstanding > maxout) maxout = outstanding; return SUCCESSFULLY_ENQUEUED; }
+        got.push_back(v); if (++outstanding > threshold) vf_fail("limiter_node(threshold %d) forwarded message %d while %d forwarded messages are not yet decremented", threshold, v, outstanding - 1); if (outstanding > maxout) maxout = outstanding; return SUCCESSFULLY_ENQUEUED; }   // no interleave point here: the sender holds its successor-cache lock during this call (threads are covered by the real-runtime legs)
     graph& graph_reference() const override { return g; } };
-static void s_limiter(long c) { int t = 1 + (int)(c % 2); c /= 2; int viaq = (int)(c % 2); c /= 2; int n = 3 + (int)(c % 3); c /= 3; long prog = c;   // prog: bit i = 1 -> decrement, 0 -> put
-    vtbb::init(2); int puts = 0, decs = 0, rejected_puts = 0; std::vector<int> accepted; std::string trace;
-    { graph g; queue_node<int> Q(g); limiter_node<int> L(g, (size_t)t); TestRecv R(g, t); if (viaq) make_edge(Q, L); make_edge(L, R);
-      for (int i = 0; i < n; i++) { bool dec = (prog >> i) & 1; trace += dec ? 'D' : 'P';
-          if (dec) { if (R.outstanding > 0) R.outstanding--; decs++; L.decrementer().try_put(continue_msg()); }
-          else { int v = ++puts; bool ok = viaq ? Q.try_put(v) : L.try_put(v); if (ok) accepted.push_back(v); else { rejected_puts++; if (viaq) vf_fail("queue_node rejected %d", v); } }
+static void s_limiter(long c) { int t = 1 + (int)(c % 2); c /= 2; int n = 3 + (int)(c % 3); c /= 3; long prog = c;   // prog digit i (base 3): 0 put into the queue, 1 direct try_put to the limiter, 2 decrement
+    vtbb::init(2); int puts = 0, rejected_puts = 0; std::vector<int> queued, direct_ok, direct_rej; std::string trace;
+    { graph g; queue_node<int> Q(g); limiter_node<int> L(g, (size_t)t); TestRecv R(g, t); make_edge(Q, L); make_edge(L, R);
+      for (int i = 0; i < n; i++) { int op = (int)(prog % 3); prog /= 3; trace += "QLD"[op];
+          if (op == 2) { if (R.outstanding > 0) R.outstanding--; L.decrementer().try_put(continue_msg()); }
+          else if (op == 0) { int v = ++puts; if (!Q.try_put(v)) vf_fail("queue_node rejected %d", v); queued.push_back(v); }
+          else { int v = ++puts; if (L.try_put(v)) direct_ok.push_back(v); else { rejected_puts++; direct_rej.push_back(v); } }
           pump(); }
       g.wait_for_all();
-      if (!viaq) { for (int v : accepted) if (std::find(R.got.begin(), R.got.end(), v) == R.got.end()) vf_fail("limiter_node accepted message %d from try_put but never forwarded it [%s]", v, trace.c_str()); for (int v : R.got) if (std::find(accepted.begin(), accepted.end(), v) == accepted.end()) vf_fail("limiter_node forwarded message %d although try_put reported it rejected [%s]", v, trace.c_str()); }
-      else {   // buffered predecessor: nothing may be lost; once the receiver accepts and decrements arrive, every queued message must come through
-          R.accept_all = true; for (size_t round = 0; round < accepted.size() + t + 2; round++) { g.wait_for_all(); if (R.got.size() == accepted.size() || R.outstanding == 0) break; R.outstanding--; L.decrementer().try_put(continue_msg()); }
-          g.wait_for_all();
-          std::vector<int> a = accepted, b = R.got; std::sort(a.begin(), a.end()); std::sort(b.begin(), b.end()); if (a != b) vf_fail("limiter_node: %zu messages were queued but %zu came through after the receiver accepted everything and all forwarded messages were decremented [%s]", a.size(), b.size(), trace.c_str());
-          for (size_t i = 1; i < R.got.size(); i++) if (R.got[i] < R.got[i - 1]) vf_fail("limiter_node forwarded queued messages out of order: %d after %d", R.got[i], R.got[i - 1]); }
-      vf_outcome("limiter t=%d q=%d %s fwd=%zu rejected_puts=%d recv_rejects=%d maxout=%d", t, viaq, trace.c_str(), R.got.size(), rejected_puts, R.rejected, R.maxout); }
+      for (int v : direct_ok) if (std::find(R.got.begin(), R.got.end(), v) == R.got.end()) vf_fail("limiter_node accepted message %d from try_put but never forwarded it [%s]", v, trace.c_str());
+      for (int v : direct_rej) if (std::find(R.got.begin(), R.got.end(), v) != R.got.end()) vf_fail("limiter_node forwarded message %d although try_put reported it rejected [%s]", v, trace.c_str());
+      // buffered predecessor: nothing may be lost; once the receiver accepts and decrements arrive, every queued message must come through
+      R.accept_all = true; size_t want = queued.size() + direct_ok.size();
+      for (size_t round = 0; round < want + t + 2; round++) { g.wait_for_all(); if (R.got.size() == want || R.outstanding == 0) break; R.outstanding--; L.decrementer().try_put(continue_msg()); }
+      g.wait_for_all();
+      std::vector<int> a = queued, b; a.insert(a.end(), direct_ok.begin(), direct_ok.end()); b = R.got; std::sort(a.begin(), a.end()); std::sort(b.begin(), b.end());
+      if (a != b) vf_fail("limiter_node: %zu messages were accepted or queued but %zu came through after the receiver accepted everything and all forwarded messages were decremented [%s]", a.size(), b.size(), trace.c_str());
+      int last = -1; for (int v : R.got) if (std::find(queued.begin(), queued.end(), v) != queued.end()) { if (v < last) vf_fail("limiter_node forwarded queued messages out of order: %d after %d", v, last); last = v; }
+      vf_outcome("limiter t=%d %s fwd=%zu rejected_puts=%d recv_rejects=%d maxout=%d", t, trace.c_str(), R.got.size(), rejected_puts, R.rejected, R.maxout); }
     vtbb::finish();
 }
 // ================================================================ overwrite_node / write_once_node
@@ -162,7 +170,7 @@ static std::vector<Block> blocks; static const char* only = nullptr;
 static void scenario(long c) { for (auto& b : blocks) { if (c < b.count) { b.fn(c); return; } c -= b.count; } }
 int main(int argc, char** argv) {
     for (int i = 1; i + 1 < argc; i++) if (!strcmp(argv[i], "-p")) { if (!strncmp(argv[i + 1], "only=", 5)) only = argv[i + 1] + 5; if (!strncmp(argv[i + 1], "depth=", 6)) DEPTH = atoi(argv[i + 1] + 6); }
-    Block all[] = {{"seq", 4 * seq_count(DEPTH), s_seq}, {"seqr", 3 * 2 * 3 * 24, s_seqr}, {"join", 3 * 3 * 3 * 2 * 3 * 64, s_join}, {"limiter", 2 * 2 * 3 * 32, s_limiter}, {"ow", 2 * 81, s_ow}, {"route", 3 * 3 * 2, s_route}};
+    Block all[] = {{"seq", 4 * seq_count(DEPTH), s_seq}, {"seqr", 3 * 2 * 3 * 24, s_seqr}, {"join", 3 * 3 * 3 * 2 * 3 * 64, s_join}, {"limiter", 2 * 3 * 243, s_limiter}, {"ow", 2 * 81, s_ow}, {"route", 3 * 3 * 2, s_route}};
     for (auto& b : all) if (!only || !strcmp(only, b.name)) blocks.push_back(b);
     long n = 0; for (auto& b : blocks) n += b.count; return vf_main_cases(argc, argv, n, scenario);
 }
